@@ -95,6 +95,7 @@ def run_case(case):
             if len(r) != exp:
                 viol.append({"kind": "wrong_count", "strategy": strat, "requested": req, "available": a,
                              "returned": len(r), "A_from_R": A is not None,
+                             "direction": "more" if len(r) > exp else "fewer",
                              "msg": "%s asked for %d of %d available solutions returned %d" % (strat, req, a, len(r))})
                 continue
             got = collections.Counter(O.seq_key(s) for s in r)
